@@ -15,7 +15,7 @@ WARM_QUERIES = (
 )
 
 
-def query(obj, q, salt=0):
+def query(obj, q, salt=0, u=None):
     """Run read-only query q on obj, return its value (numpy) or None."""
     jnp = lib()["jnp"]
     k = ref.kind_of(obj)
@@ -43,6 +43,8 @@ def query(obj, q, salt=0):
             return None
     if k == "cond":
         x = jnp.asarray(ref.generic_points(int(obj.Dx), ("warm", salt))[:2])
+        if type(obj).__name__ == "NNControlGaussianConditional":
+            return A(obj.get_conditional_mu(x, u))
         return A(obj.get_conditional_mu(x))
     X = jnp.asarray(ref.generic_points(int(obj.D), ("warm", salt))[:3])
     return A(obj.evaluate_ln(X))
@@ -73,6 +75,32 @@ def canonical_rebuild(obj):
         return cls(ln_beta=obj.ln_beta, num_dim=int(obj.D))
     if name == "ConjugateFactor":
         return cls(Lambda=obj.Lambda, nu=obj.nu, ln_beta=obj.ln_beta)
+    return None
+
+
+SPECIALISED = ("GaussianDiagMeasure", "GaussianDiagPDF", "ConditionalGaussianDiagPDF", "ConditionalIdentityGaussianPDF",
+               "ConditionalIdentityDiagGaussianPDF", "OneRankFactor", "LinearFactor", "ConstantFactor", "NNControlGaussianConditional")
+
+
+def generalise(obj, u=None):
+    """swap_repr: the general full-matrix object carrying the same parameters (C15)."""
+    L = lib()
+    jnp = L["jnp"]
+    name = type(obj).__name__
+    F, Ms, P, C = L["factor"], L["measure"], L["pdf"], L["conditional"]
+    if name == "GaussianDiagMeasure":
+        return Ms.GaussianMeasure(Lambda=obj.Lambda, nu=obj.nu, ln_beta=obj.ln_beta)
+    if name == "GaussianDiagPDF":
+        return P.GaussianPDF(Sigma=obj.Sigma, mu=obj.mu)
+    if name == "ConditionalGaussianDiagPDF":
+        return C.ConditionalGaussianPDF(M=obj.M, b=obj.b, Sigma=obj.Sigma)
+    if name in ("ConditionalIdentityGaussianPDF", "ConditionalIdentityDiagGaussianPDF"):
+        R, D = int(obj.R), int(obj.Dy)
+        return C.ConditionalGaussianPDF(M=jnp.tile(jnp.eye(D)[None], (R, 1, 1)), b=jnp.zeros((R, D)), Sigma=obj.Sigma)
+    if name in ("OneRankFactor", "LinearFactor", "ConstantFactor"):
+        return F.ConjugateFactor(Lambda=obj.Lambda, nu=obj.nu, ln_beta=obj.ln_beta)
+    if name == "NNControlGaussianConditional":
+        return obj.set_control_variable(u)
     return None
 
 
@@ -119,7 +147,7 @@ def apply(w, f, i):
 
     def safe_query():
         try:
-            return query(obj, f["q"], salt=(w.salt, i))
+            return query(obj, f["q"], salt=(w.salt, i), u=s.u)
         except Exception as e:
             v = Violation("raise.warm." + f["q"], f"{type(e).__name__}: {str(e)[:200]}", where=where)
             ctx = {"op": "warm", "name": f["q"], "cls_a": s.cls, "mask_a": before, "kind_a": s.kind}
@@ -185,6 +213,14 @@ def _apply(w, f, i, kind, s, obj, where, before, desc, safe_query):
         ref.I_coh(new, where=where)
         s.obj = new
         fired = True
+    elif kind == "swap":
+        new = generalise(obj, s.u)
+        if new is None:
+            w.stats["fault_skipped"] += 1
+            return
+        s.obj = new
+        s.u = None
+        fired = True
     elif kind == "rekey":
         if s.kind != "pdf":
             w.stats["fault_skipped"] += 1
@@ -196,7 +232,7 @@ def _apply(w, f, i, kind, s, obj, where, before, desc, safe_query):
         raise KeyError(kind)
     if fired:
         w.stats["fault_fired." + kind] += 1
-        w.last_fault[s.id] = kind + (":" + f.get("q", f.get("via", "")) if kind != "evict" else "")
+        w.last_fault[s.id] = kind + (":" + f.get("q", f.get("via", "")) if kind not in ("evict", "swap", "rekey") else "")
         w.fired = getattr(w, "fired", 0) + 1
     else:
         w.stats["fault_noop." + kind] += 1
